@@ -81,7 +81,7 @@ META = {
         "after a second in-place update_H."
     ),
     "outside": [
-        "N = 6, 7 of the property's quantifier (N <= 5 for d = 2, N <= 4 for d = 3)",
+        "N = 7 of the property's quantifier (thorough: N <= 6 for d = 2 without the noise term, N <= 5 with it, N <= 4 for d = 3)",
         "floating-point rounding",
         "the dense reference is written from Pulser's documented convention (pulser-simulation is not installed)",
     ],
@@ -111,7 +111,7 @@ def cases(tier):
             for n in (2, 3, 4, 5)
             for k in ("rydberg", "xy")
             for nz in (True,)
-        ] + [(n, 3, k, True) for n in (2, 3, 4) for k in ("rydberg", "xy")]
+        ] + [(n, 3, k, True) for n in (2, 3, 4) for k in ("rydberg", "xy")] + [(6, 2, "rydberg", False), (6, 2, "xy", False)]
     for n, d, kind, nz in grid:
         out.append(
             Case(
